@@ -159,7 +159,7 @@ void exec_caller_step(Run &run, const Step &s, int thr) {
     case S_CANCEL: run.do_cancel(0); break;
     case S_SETSRV: run.set_servers_variant((int)s.a); break;
     case S_REINIT: run.do_reinit(0); break;
-    case S_SORTLIST: { static const char *sl[] = {"10.0.0.0/8", "fd00::/8", "192.0.2.0/24 10.128.0.0/9"}; W.api_seq++; ares_set_sortlist(c.ch, sl[(size_t)s.a % 3]); run.note("set_sortlist"); break; }
+    case S_SORTLIST: { static const char *sl[] = {"10.0.0.0/8", "fd00::/8", "192.0.2.0/24 10.128.0.0/9"}; static const char *canon[] = {"10.0.0.0/8", "fd00::/8", "192.0.2.0/24,10.128.0.0/9"}; W.api_seq++; int rc = ares_set_sortlist(c.ch, sl[(size_t)s.a % 3]); run.note("set_sortlist"); if (rc == ARES_SUCCESS) run.user_set_later["sortlist"] = canon[(size_t)s.a % 3]; break; }
     case S_LOCAL: { W.api_seq++; if (s.a & 1) ares_set_local_dev(c.ch, (s.a & 2) ? "eth1" : "eth0"); else ares_set_local_ip4(c.ch, 0xC0000250 + (unsigned)(s.a & 3)); run.note("set_local"); break; }
     case S_QUERYINFO: {
       W.api_seq++;
@@ -224,6 +224,9 @@ void exec_caller_step(Run &run, const Step &s, int thr) {
 }
 
 struct CallerArg { int thr; };
+}
+void c16b_end(Run &run);
+namespace {
 void *caller_main(void *a) {
   CallerArg *ca = (CallerArg *)a;
   Run &run = *g_mb->run;
@@ -322,6 +325,14 @@ int run_mode_b(const RunCfg &cfg, const std::vector<Step> &plan, const std::vect
         else run.note("usability_ok");
       }
     }
+  }
+  if (cfg.profile == "C16B" && run.chans[0].alive) {
+    // let every reload that has been started (by a caller, or by the event thread on a change notification) finish: the flag
+    // must be seen clear at two instants 100 ms apart (virtual time; the event thread handles a pending notification at once)
+    int clear = 0;
+    for (int i = 0; i < 600 && clear < 2; i++) { clear = peek_reinit_pending(run.chans[0].ch) ? 0 : clear + 1; sched_sleep_until(W.now_us + 100000); }
+    if (clear < 2) run.violate("C11", "reload_never_finishes", "a configuration reload was still in progress 60 s after the last application call: " + thread_table());
+    else { run.note("reloads_settled"); c16b_end(run); }
   }
   run.destroy_all();
   run.note("destroyed");
